@@ -7,6 +7,7 @@ import (
 	"context"
 	"encoding/json"
 	"fmt"
+	"reflect"
 	"strings"
 	"testing"
 
@@ -38,6 +39,8 @@ type Action struct {
 	Key  int    `json:"key,omitempty"`
 	Arg  string `json:"arg,omitempty"`
 	Val  string `json:"val,omitempty"`
+	// Extra: title of a link ("T2" also sets its MIME type)
+	Extra string `json:"extra,omitempty"`
 }
 
 // Case is a history followed by a verification with one presented key.
@@ -135,7 +138,7 @@ func contains(cur, signed map[string]any) (bool, string) {
 		found := false
 		for _, c := range asList(cur["links"]) {
 			cm := asMap(c)
-			if cm["key"] == sm["key"] && cm["url"] == sm["url"] {
+			if reflect.DeepEqual(cm, sm) {
 				found = true
 			}
 		}
@@ -204,7 +207,25 @@ func judge(c Case, o *vh.Obs) {
 				env.Head.AddStamp(&head.Stamp{Provider: cbc.Key(a.Arg), Value: a.Val})
 			}
 		case "add-link":
-			env.Head.AddLink(&head.Link{Key: cbc.Key(a.Arg), URL: "https://example.com/" + a.Val})
+			l := &head.Link{Key: cbc.Key(a.Arg), URL: "https://example.com/" + a.Val, Title: a.Extra}
+			if a.Extra == "T2" {
+				l.MIME = "application/pdf"
+			}
+			env.Head.AddLink(l)
+		case "retitle-link":
+			if len(env.Head.Links) > 0 {
+				l := env.Head.Links[len(env.Head.Links)-1]
+				switch a.Arg {
+				case "title":
+					l.Title = a.Val
+				case "description":
+					l.Description = a.Val
+				default:
+					l.MIME = "text/" + a.Val
+				}
+			}
+		case "remove-meta":
+			delete(env.Head.Meta, cbc.Key(a.Arg))
 		case "add-tag":
 			env.Head.Tags = append(env.Head.Tags, a.Arg)
 		case "set-meta":
@@ -496,7 +517,7 @@ var metaKeys = []string{"m1", "m2"}
 
 func genAction(t *rapid.T, label string, phase string) Action {
 	pre := []string{"add-link", "add-tag", "set-meta", "set-notes", "add-tag", "set-meta"}
-	post := []string{"add-stamp", "add-link", "add-tag", "set-meta", "set-notes", "alter-uuid", "alter-digest", "remove-tag", "remove-stamp", "remove-link",
+	post := []string{"add-stamp", "add-link", "add-tag", "set-meta", "set-notes", "alter-uuid", "alter-digest", "remove-tag", "remove-stamp", "remove-link", "retitle-link", "retitle-link", "remove-meta", "set-meta",
 		"edit-doc", "edit-doc-recalc", "edit-doc-recalc", "reparse", "sign", "unsign", "add-stamp", "add-link", "set-meta"}
 	kinds := pre
 	if phase == "post" {
@@ -512,11 +533,17 @@ func genAction(t *rapid.T, label string, phase string) Action {
 	case "add-link":
 		a.Arg = rapid.SampledFrom(linkKeys).Draw(t, label+"_lk")
 		a.Val = rapid.SampledFrom([]string{"a", "b"}).Draw(t, label+"_lv")
+		a.Extra = rapid.SampledFrom([]string{"", "", "T1", "T2"}).Draw(t, label+"_lt")
+	case "retitle-link":
+		a.Arg = rapid.SampledFrom([]string{"title", "description", "mime"}).Draw(t, label+"_what")
+		a.Val = rapid.SampledFrom([]string{"T1", "html", ""}).Draw(t, label+"_rv")
+	case "remove-meta":
+		a.Arg = rapid.SampledFrom(metaKeys).Draw(t, label+"_mk")
 	case "add-tag":
-		a.Arg = rapid.SampledFrom(tagPool).Draw(t, label+"_tag")
+		a.Arg = rapid.SampledFrom(append([]string{""}, tagPool...)).Draw(t, label+"_tag")
 	case "set-meta":
 		a.Arg = rapid.SampledFrom(metaKeys).Draw(t, label+"_mk")
-		a.Val = rapid.SampledFrom([]string{"x", "y"}).Draw(t, label+"_mv")
+		a.Val = rapid.SampledFrom([]string{"x", "y", ""}).Draw(t, label+"_mv")
 	case "set-notes":
 		a.Val = rapid.SampledFrom([]string{"n1", "n2", ""}).Draw(t, label+"_nv")
 	case "alter-uuid":
@@ -588,7 +615,7 @@ func enumTamper(yield func(Case) bool) {
 func init() {
 	vh.OnExit(goblexec.Stop)
 	vh.Describe(
-		"Histories over every signable example invoice: 0-3 header decorations (links, tags, meta, notes), a signature by one of three keys, then 0-5 post-signing steps drawn from: add stamp / link / tag / meta / notes, alter uuid / digest, remove a tag / stamp / link, edit the document with and without recalculation, serialise+parse, sign again (any key), unsign; finally verification with the signer's key (75%) or another (a fifth of the time written as a JWK without the optional key id), through Envelope.Verify, VerifySignature, cli.Verify, the bulk verify action (in process) and - for a tenth of the cases and the enumerated tamper scenarios - the `gobl verify -k` executable, POST /verify and POST /bulk of a running `gobl serve`. Model: the header JSON recorded at each signing; expected = signed AND every signature made with the presented key AND the current header still contains each signed header (uuid, dig, stamps, links, tags, meta, notes); command-line paths additionally need the envelope to validate. Every path must return exactly the expected verdict; after an accepted verification a different key pair carrying the signer's key id must be refused by the same in-memory envelope. Non-trivial: the history ends signed.",
+		"Histories over every signable example invoice: 0-3 header decorations (links, tags, meta, notes), a signature by one of three keys, then 0-5 post-signing steps drawn from: add stamp / link (with or without title and MIME type) / tag (also the blank tag) / meta (also the empty value) / notes, change the title, description or MIME type of a link, remove a meta entry, alter uuid / digest, remove a tag / stamp / link, edit the document with and without recalculation, serialise+parse, sign again (any key), unsign; finally verification with the signer's key (75%) or another (a fifth of the time written as a JWK without the optional key id), through Envelope.Verify, VerifySignature, cli.Verify, the bulk verify action (in process) and - for a tenth of the cases and the enumerated tamper scenarios - the `gobl verify -k` executable, POST /verify and POST /bulk of a running `gobl serve`. Model: the header JSON recorded at each signing; expected = signed AND every signature made with the presented key AND the current header still contains each signed header (uuid, dig, stamps, links, tags, meta, notes); command-line paths additionally need the envelope to validate. Every path must return exactly the expected verdict; after an accepted verification a different key pair carrying the signer's key id must be refused by the same in-memory envelope. Non-trivial: the history ends signed.",
 		"signatures are random (ECDSA); only verdicts are compared",
 		"whether the envelope validates is taken from Envelope.Validate (its rules are property C10)",
 	)
